@@ -1,6 +1,7 @@
 package c10
 
 import (
+	"strconv"
 	"testing"
 
 	"go.lstv.dev/util/roman"
@@ -9,7 +10,7 @@ import (
 )
 
 // coldScenarios name the call that is made first in a fresh process; afterwards ordinary cases are judged.
-var coldScenarios = []string{"valid string", "valid bytes lower under rule", "valid empty", "valid invalid", "parse string", "parse bytes mixed", "parse empty under rule", "parse invalid", "parse foreign byte", "unmarshaltext", "unmarshaltext invalid", "format"}
+var coldScenarios = []string{"valid string", "valid bytes lower under rule", "valid empty", "valid invalid", "parse string", "parse bytes mixed", "parse empty under rule", "parse invalid", "parse foreign byte", "unmarshaltext", "unmarshaltext invalid", "format", "first parse while a custom Formatter is installed"}
 
 func coldFirst(scenario string) {
 	switch scenario {
@@ -39,6 +40,16 @@ func coldFirst(scenario string) {
 		_ = n.UnmarshalText([]byte("null"))
 	case "format":
 		_ = roman.Number(1994).String()
+	case "first parse while a custom Formatter is installed":
+		old := roman.Formatter
+		roman.Formatter = func(buf []byte, n roman.Number, f roman.Format) ([]byte, error) {
+			return append(buf, "#"+strconv.FormatUint(uint64(n), 10)...), nil
+		}
+		_, _ = roman.DefaultParser("XIV", 0)
+		_ = roman.Valid("xiv", 0)
+		var n roman.Number
+		_ = n.UnmarshalText([]byte("MCM"))
+		roman.Formatter = old
 	default:
 		panic("unknown cold scenario " + scenario)
 	}
@@ -52,7 +63,7 @@ func TestColdStart(t *testing.T) {
 	r := vkit.Start("C10")
 	w := r.NewW()
 	w.Guard(map[string]string{"first_call": scenario}, func() { coldFirst(scenario) })
-	for _, text := range []string{"", "I", "iv", "IIII", "VIIII", "MCMXCIV", "mdclxvi", "MmMcDxLiV", "IIX", "VX", "IC", "MMMMMMMMMMDCCCCLXXXXVIIII", "X I", "Xi\x00", "null", "ſ", "CMCM", "DD"} {
+	for _, text := range []string{"", "I", "iv", "IIII", "VIIII", "MCMXCIV", "mdclxvi", "MmMcDxLiV", "IIX", "VX", "IC", "MMMMMMMMMMDCCCCLXXXXVIIII", "X I", "Xi\x00", "null", "ſ", "CMCM", "DD", "#7", "#1994", "7", "14", "#"} {
 		for _, rule := range []int{0, int(roman.RuleDisableEmptyAsZero)} {
 			judge(Case{Text: vkit.B(text), Rule: rule}, w)
 		}
